@@ -214,4 +214,4 @@ def r5(ctx):
 def r6(ctx):
     from . import c01
     ctx.sub(c01.r8)
-    ctx.sub(c01.r1)   # the back-pointer table must be able to hold every label it stores
+    ctx.sub(c01.r1, only=("alloc:P",))   # the back-pointer table must be able to hold every label it stores
